@@ -45,7 +45,8 @@ def cfg_text(k, zs, export):
 
 
 def mine(prop, why):
-    return (prop == "C06") == why.startswith("flush_log()")
+    owner = "C06" if why.startswith("flush_log()") else "C07" if why.startswith("stop()") else "C03"
+    return prop == owner
 
 
 def script_of(beh, flush=False):
@@ -61,7 +62,7 @@ def script_of(beh, flush=False):
             L.append(f"S 1 {h['arg'][0]}")
         elif h["a"] == "clear":
             L.append("S 1 0")
-    return "\n".join(L) + ("\ndrain 8 flush\nend\n" if flush else "\ndrain 8\nend\n")
+    return "\n".join(L) + f"\ndrain 8{' ' + flush if flush else ''}\nend\n"
 
 
 def compare(k, beh, evs):
@@ -124,7 +125,8 @@ def validate(ck, execs, label):
 
 def run_for(ck):
     quick = ck.tier == "quick"
-    fl = ck.prop == "C06"        # the C06 check ends every run with flush_log() calls of the new threads
+    # the C06 check ends every run with flush_log() calls of the new threads, the C07 check with Backend::stop()
+    fl = {"C06": "flush", "C07": "stop"}.get(ck.prop, "")
     exe = stopmodel.build()
     try:
         k = extract(exe)
